@@ -2,7 +2,9 @@ package main
 
 import (
 	"fmt"
+	"github.com/sahandsafizadeh/qeep/tensor"
 	"math"
+	"qmc/rt"
 
 	"qmc/core"
 	"qmc/enum"
@@ -38,6 +40,7 @@ func c02Opts(thorough bool) opCaseOpts {
 
 func checkC02(c *core.Ctx) {
 	defer sweepC02(c)
+	defer c02UnaryMagnitudes(c)
 	defer selfCases(c, true, "elementwise", "linalg", "move")
 	defer soakC02(c)
 	defer sweepConcatN(c, true)
@@ -169,6 +172,68 @@ func c02Run(oc OpCase, in []*ref.T, mask int, wi int) core.Verdict {
 		v.Detail = describeProgram(p) + " :: " + v.Detail
 	}
 	return v
+}
+
+// c02UnaryMagnitudes: the derivative of every element-wise function at arguments from 1e-8 to 20
+// (both signs where defined), each gradient element judged RELATIVE to its own expected value
+// (1e-6): the derivatives are well-conditioned functions of the argument there, so a rule that
+// reuses a rounded forward result and cancels (1 - tanh(x)^2 for |x| > 12, ...) shows.
+func c02UnaryMagnitudes(c *core.Ctx) {
+	mags := []float64{1e-8, 1e-3, 0.3, 2.5, 9, 12, 15, 17, 19, 20}
+	ops := []ref.Op{{K: "Exp"}, {K: "Log"}, {K: "Sin"}, {K: "Cos"}, {K: "Tan"}, {K: "Sinh"}, {K: "Cosh"}, {K: "Tanh"}, {K: "Scale", F: -1.5}}
+	for _, a := range powExponents {
+		ops = append(ops, ref.Op{K: "Pow", F: a})
+	}
+	for _, op := range ops {
+		for sign := 0; sign < 2; sign++ {
+			op, sign := op, sign
+			c.Case(fmt.Sprintf("magnitudes/%s/sign%d", op, sign), true, func() core.Verdict {
+				x := &ref.T{Shape: []int{len(mags)}, V: append([]float64{}, mags...)}
+				if sign == 1 {
+					for i := range x.V {
+						x.V[i] = -x.V[i]
+					}
+				}
+				p := &ref.Program{Leaves: []*ref.T{x}, Tracked: []bool{true}, Nodes: []ref.Node{{Op: op, In: []int{0}}}}
+				vals, ok := p.Forward()
+				if !ok || !p.DifferentiableAll(vals) {
+					return core.Skip()
+				}
+				for _, v := range vals[1].V {
+					if math.IsNaN(v) || math.IsInf(v, 0) {
+						return core.Skip()
+					}
+				}
+				q, root := withWeighting(p, 1, 9)
+				qv, _ := q.Forward()
+				grads, _ := q.Backward(qv, root, nil, false)
+				ts, failed, err := rt.RunProgram(q)
+				if err != nil {
+					return core.Fail("%s: forward node %d: %v", op, failed, err)
+				}
+				if err := tensor.BackPropagate(ts[root]); err != nil {
+					return core.Fail("%s: BackPropagate: %v", op, err)
+				}
+				g := ts[0].Gradient()
+				if g == nil {
+					return core.Fail("%s: no gradient", op)
+				}
+				got := rt.Read(g)
+				if !ref.SameShape(got.Shape, x.Shape) {
+					return core.Fail("%s: gradient shape %v", op, got.Shape)
+				}
+				for i, e := range grads[0].V {
+					if math.IsInf(e, 0) || math.IsNaN(e) || (e != 0 && math.Abs(e) < 1e-290) {
+						continue
+					}
+					if d := math.Abs(got.V[i] - e); d > 1e-6*math.Abs(e)+1e-300 || math.IsNaN(d) {
+						return core.Fail("%s at x = %v with upstream %v: gradient %v, expected %v (relative error %.2g)", op, x.V[i], qv[1].V[i], got.V[i], e, d/math.Abs(e))
+					}
+				}
+				return core.Pass()
+			})
+		}
+	}
 }
 
 func c02Scaled(oc OpCase, sc float64) core.Verdict {
